@@ -14,7 +14,7 @@ use crate::{
     crypto::hash::HashAlgorithm,
     errors::{bail, ensure, ensure_eq, format_err, InvalidInputSnafu, Result},
     line_writer::LineBreak,
-    normalize_lines::{normalize_lines, NormalizedReader},
+    normalize_lines::normalize_lines,
     packet::{
         Packet, PacketParser, PacketTrait, Signature, SignatureConfig, SignatureType, Subpacket,
         SubpacketData,
@@ -50,13 +50,15 @@ impl CleartextSignedMessage {
         key_pw: &Password,
     ) -> Result<Self>
 where {
-        let mut bytes = text.as_bytes();
-        let signature_text = NormalizedReader::new(&mut bytes, LineBreak::Crlf);
+        // Sign exactly the form that `signed_text()` hands to the verifier:
+        // trailing blanks removed from each line, CRLF line endings.
+        let csf_encoded_text = dash_escape(text);
+        let signature_text = signed_form(&csf_encoded_text);
         let hash = config.hash_alg;
-        let signature = config.sign(key, key_pw, signature_text)?;
+        let signature = config.sign(key, key_pw, signature_text.as_bytes())?;
 
         Ok(Self {
-            csf_encoded_text: dash_escape(text),
+            csf_encoded_text,
             hashes: vec![hash],
             signatures: vec![signature],
         })
@@ -94,7 +96,10 @@ where {
     where
         F: FnOnce(&str) -> Result<Vec<Signature>>,
     {
-        let signature_text = normalize_lines(text, LineBreak::Crlf);
+        // Sign exactly the form that `signed_text()` hands to the verifier:
+        // trailing blanks removed from each line, CRLF line endings.
+        let csf_encoded_text = dash_escape(text);
+        let signature_text = signed_form(&csf_encoded_text);
 
         let raw_signatures = signer(&signature_text[..])?;
         let mut hashes = HashSet::new();
@@ -109,7 +114,7 @@ where {
         }
 
         Ok(Self {
-            csf_encoded_text: dash_escape(text),
+            csf_encoded_text,
             hashes: hashes.into_iter().collect(),
             signatures,
         })
@@ -149,9 +154,7 @@ where {
     /// Normalizes the text to the format that was hashed for the signature.
     /// The output is normalized to "\r\n" line endings.
     pub fn signed_text(&self) -> String {
-        let unescaped = dash_unescape_and_trim(&self.csf_encoded_text);
-
-        normalize_lines(&unescaped, LineBreak::Crlf).to_string()
+        signed_form(&self.csf_encoded_text)
     }
 
     /// The "cleartext framework"-encoded (i.e. dash-escaped) form of the message.
@@ -325,6 +328,16 @@ fn dash_escape(text: &str) -> String {
     }
 
     out
+}
+
+/// The form of the text that is hashed for the signature(s):
+/// dash-escaping undone, trailing blanks of each line removed, line endings normalized to CRLF.
+///
+/// Used by both the signing and the verifying side, so that they always agree.
+fn signed_form(csf_encoded_text: &str) -> String {
+    let unescaped = dash_unescape_and_trim(csf_encoded_text);
+
+    normalize_lines(&unescaped, LineBreak::Crlf).to_string()
 }
 
 /// Undo dash escaping of `text`, and trim space/tabs at the end of lines.
